@@ -70,6 +70,13 @@ def run_on(pid, tree):
             os.environ.pop("P2SH_REPO", None)
         else:
             os.environ["P2SH_REPO"] = old
+        # per-tree caches of the engines (keyed by the fact object) must not outlive the tree
+        try:
+            from . import e5run as _e5run, panics as _panics
+            _e5run._cache.clear()
+            _panics._OK_FACTS.clear()
+        except Exception:
+            pass
     known, _ = core.load_known()
     return [(o.rule, o.key, o.detail) for o in R.obls if not o.ok and (pid, o.rule, o.key) not in known]
 
